@@ -32,8 +32,11 @@ class EngineFault(KeyboardInterrupt):
 
 
 class Engine:
-    def __init__(self, timeout_ms=20000, max_decisions=400000, path_time_limit=300):
+    def __init__(self, timeout_ms=20000, max_decisions=400000, path_time_limit=300, slicing=False):
         self.path_time_limit = path_time_limit
+        self.slicing = slicing        # valid(): first try with only the assertions that share symbols with the goal (cone of influence)
+        self.facts = []               # (assertion, frozenset of its uninterpreted symbols) parallel to the solver's assertion stack
+        self._varcache = {}
         self.solver = z3.Solver()
         self.solver.set("timeout", timeout_ms)
         self.background = []          # facts re-asserted in every path (e.g. table facts)
@@ -55,6 +58,7 @@ class Engine:
         self.frontier = []
         self.lin = LinStore()
         self.free_count = 0
+        self.relaxations = 0
 
     # ------------------------------------------------------------------ solver access
     def fresh_name(self, base):
@@ -76,6 +80,57 @@ class Engine:
     def add(self, c):
         self.solver.add(c)
         self.model = None
+        if self.slicing:
+            for x in (c if isinstance(c, (list, tuple)) else [c]):
+                self.facts.append((x, self._symbols(x)))
+
+    def _symbols(self, t):
+        """names of the uninterpreted constants / functions occurring in a term (memoised by AST id)"""
+        key = t.get_id()
+        hit = self._varcache.get(key)
+        if hit is not None:
+            return hit[0]
+        out, seen, stack = set(), set(), [t]
+        while stack:
+            x = stack.pop()
+            i = x.get_id()
+            if i in seen:
+                continue
+            seen.add(i)
+            if z3.is_app(x):
+                d = x.decl()
+                if d.kind() == z3.Z3_OP_UNINTERPRETED and d.arity() == 0:
+                    out.add(d.name())       # constants only: a shared function symbol (rn, pow2, hash) must not glue unrelated facts together
+                stack.extend(x.children())
+        r = frozenset(out)
+        self._varcache[key] = (r, t)
+        return r
+
+    def _sliced_valid(self, cond):
+        goal = set(self._symbols(cond))
+        chosen, rest = [], list(self.facts)
+        changed = True
+        while changed:
+            changed = False
+            keep = []
+            for f, vs in rest:
+                if vs & goal:
+                    chosen.append(f)
+                    goal |= vs
+                    changed = True
+                else:
+                    keep.append((f, vs))
+            rest = keep
+        s2 = z3.Solver()
+        s2.set("timeout", 10000)
+        s2.add(chosen)
+        s2.add(z3.Not(cond))
+        t = time.time()
+        r = s2.check()
+        self.stats["solver_s"] += time.time() - t
+        self.stats["queries"] += 1
+        self.stats["sliced"] = self.stats.get("sliced", 0) + 1
+        return r == z3.unsat
 
     def get_model(self):
         if self.model is None:
@@ -165,6 +220,8 @@ class Engine:
             m_other = self.solver.model()
             self.pending.append(list(self.log) + [("b", False)])
             self.solver.add(cond)
+            if self.slicing:
+                self.facts.append((cond, self._symbols(cond)))
             self.model = m if v else m_other
             self.cache[key] = (True, cond)
             self.free_count += 1
@@ -230,6 +287,8 @@ class Engine:
         if z3.is_true(cond):
             self.stats["trivial"] = self.stats.get("trivial", 0) + 1
             return True, None
+        if self.slicing and self._sliced_valid(cond):
+            return True, None          # unsat under a subset of the path's assertions => unsat under all of them
         if self.check(z3.Not(cond)):
             return False, self.solver.model()
         return True, None
@@ -253,6 +312,8 @@ class Engine:
             self.rawcache = {}
             self.lin = LinStore()
             self.free_count = 0
+            self.facts = []
+            self.relaxations = 0          # number of over-approximating (float model) constraints introduced on this path
             self.solver.push()
             try:
                 if self.background:
